@@ -49,7 +49,7 @@ KNOWN_EXT = {
     "concatenate", "roll", "unravel_index", "ravel_multi_index", "reshape", "meshgrid", "interp", "angle",
     "maximum", "minimum", "hypot", "arctan2", "power", "multiply", "add", "subtract", "divide", "true_divide",
     "mod", "remainder", "fmod", "floor_divide", "logical_and", "logical_or", "logical_not", "dot", "outer", "indices",
-    "greater_equal", "less", "greater", "less_equal", "equal", "not_equal", "broadcast_arrays", "ascontiguousarray",
+    "greater_equal", "less", "greater", "less_equal", "equal", "not_equal", "broadcast_arrays", "ascontiguousarray", "select",
     "sort", "argsort", "flip", "unique", "tile", "repeat", "stack", "vstack", "hstack", "nan_to_num",
     "datetime64", "timedelta64", "errstate", "dtype", "shape", "size", "ndim", "iscomplex", "isreal",
     "expand_dims", "broadcast_to", "swapaxes", "moveaxis", "take", "nonzero", "count_nonzero", "allclose",
@@ -376,6 +376,12 @@ def call_numpy(it, tail, args, kwargs, env, node, chain):
                 and fname(a1) == "item" and a1.args[0] == a0.args[0] and a1.args[1] == 0:
             return op("roll", a0.args[0], sp.Integer(-1))
         return op("concatenate", sp.Tuple(a0, a1), sp.Integer(0))
+    if tail == "select" and len(a) >= 2 and isinstance(a[0], (list, tuple)) and isinstance(a[1], (list, tuple)) and len(a[0]) == len(a[1]):
+        # np.select(conditions, choices, default): the first condition that holds picks its choice
+        out = to_term(a[2] if len(a) > 2 else kw(kwargs, "default", num(0)))
+        for c_, v_ in reversed(list(zip(a[0], a[1]))):
+            out = make_where(to_term(c_), to_term(v_), out)
+        return out
     if tail == "broadcast_arrays" and t:
         return tuple(t)            # the same values, shaped alike
     if tail == "concatenate":
